@@ -42,6 +42,7 @@ impl Iterator for GenIter {
             Hint::Low => ((self.left / 2) as usize, None),
             Hint::Zero => (0, None),
             Hint::Unbounded => (0, Some(usize::MAX)),
+            Hint::Over(k) => (0, Some(self.left as usize + k as usize)),
         }
     }
 }
@@ -102,6 +103,7 @@ pub(crate) fn run_case_impl(case: &Case, opts: Opts) -> Result<Outcome, Failure>
         if counting && case.fault.is_none() && i + 1 == case.ops.len() {
             out.counts = st.op_counts;
         }
+        out.counts_per_op.push(st.op_counts);
     }
 
     // ---- final drop of the buffer and of everything the harness holds
@@ -111,6 +113,7 @@ pub(crate) fn run_case_impl(case: &Case, opts: Opts) -> Result<Outcome, Failure>
     if case.ops.is_empty() && case.fault.is_none() {
         out.counts = st.op_counts;
     }
+    out.counts_per_op.push(st.op_counts);
     out.flags = st.flags;
     out.digest = st.dig;
     out.max_reloc = st.max_reloc;
